@@ -9,7 +9,7 @@ b*      = breaking changes that LOOK like such rewrites (expected: fail closed o
 import shutil, sys, tempfile
 from pathlib import Path
 
-IDS = ["h1", "h2", "h3", "v1", "v2", "v3", "v4", "b1", "b2", "b3", "b4", "b5", "b6", "b7"]
+IDS = ["h1", "h2", "h3", "v1", "v2", "v3", "v4", "v5", "b1", "b2", "b3", "b4", "b5", "b6", "b7"]
 if sys.argv[1] == "--translate":
     import subprocess
     for r in IDS:
@@ -278,6 +278,20 @@ elif rid == "v4":
     body = s[a:b].replace("        if self._array is None:\n            return xr.DataArray()\n\n", "")
     body = "        if self._array is not None:\n" + "\n".join(("    " + l) if l.strip() else l for l in body.rstrip().splitlines()) + "\n\n        return xr.DataArray()\n\n"
     (dest / "pyxel/data_structure/array.py").write_text(s[:a] + body + s[b:])
+elif rid == "v5":
+    # the combining function as a local `def`; the expanded dataset as a named intermediate result
+    sub(EXP, "        buckets_data_tree: xr.DataTree = xr.DataTree()\n", """        buckets_data_tree: xr.DataTree = xr.DataTree()
+
+        def concat_steps(*step_datasets: xr.Dataset) -> xr.Dataset:
+            return xr.concat(step_datasets, dim="time")
+""")
+    sub(EXP, '                    lambda *data: xr.concat(data, dim="time"),  # function\n', "                    concat_steps,\n")
+    sub(EXP, """    dataset_with_time: xr.Dataset = dataset.expand_dims(dim="time").assign_coords(
+        time=absolute_time
+    )
+""", """    expanded: xr.Dataset = dataset.expand_dims(dim="time")
+    dataset_with_time: xr.Dataset = expanded.assign_coords(time=absolute_time)
+""")
 elif rid == "b7":
     # looks like h1: time label from a private helper -- which reads the RELATIVE time
     sub(EXP, 'def _extract_datatree_2d(', LABEL_HELPER.replace("detector.absolute_time", "detector.time"))
